@@ -502,10 +502,13 @@ def r6_plumbing(ctx):
         ctx.obligation(ok)
         (ctx.ok if ok else ctx.violation)('C04.R6', 'C04.R6/minimize/both-outcomes-present', fn.path, fn.site(), {'cases': sorted(kinds)}, cfg)
         # the two closures given to the minimiser
-        for idx_, want in ((0, 'is_final'), (1, 'eval')):
-            clp = AUT + 'minimize::{closure#%d}' % idx_
-            if cr.fn(clp) is None:
-                ctx.unanalysable('C04.R6', 'C04.R6/minimize/closure-%s-missing' % want, clp, None, None, cfg)
+        # (told apart by what they take - a state, or a state and a character - not by the order they are written in)
+        clos = sorted(p_ for p_ in cr.fns if p_.startswith(AUT + 'minimize::{closure#') and p_.count('{closure') == 1)
+        byrole = {('is_final' if cr.fn(p_).arg_count == 2 else 'eval' if cr.fn(p_).arg_count == 3 else None): p_ for p_ in clos}
+        for want in ('is_final', 'eval'):
+            clp = byrole.get(want)
+            if clp is None:
+                ctx.unanalysable('C04.R6', 'C04.R6/minimize/closure-%s-missing' % want, AUT + 'minimize', None, None, cfg)
                 continue
             an2 = analyse(ctx, cfg, clp, [], uninterpreted=lambda p: True, _exact_casts=[('u32', 'usize'), ('usize', 'u32')])
             for o in an2.rets:
